@@ -273,6 +273,85 @@ def gen_state_requests(tier, seed):
     return reqs, len(states)
 
 
+# ------------------------------------------------------------------ send paths and failing connections
+SEND_APIS = [("new", 0), ("new", 2), ("hdr", 0), ("byt", 0), ("byt", 3), ("msg", 0), ("msg", 3), ("for", 0), ("for", 5)]
+API_NAME = {"new": "newMessage(..) handed to SendNoWait", "hdr": "NewHdrOnlyMsg(typ) handed to SendNoWait",
+            "byt": "NewByteMessage(typ, payload) handed to SendNoWait", "msg": "Client.SendMessage(ctx, typ, data)",
+            "for": "Client.SendFor(ctx, out, in) with out.Type() = typ"}
+
+
+def type_spec(ts):
+    """ascending type codes as 'a-b,c,..'"""
+    out, i = [], 0
+    while i < len(ts):
+        j = i
+        while j + 1 < len(ts) and ts[j + 1] == ts[j] + 1:
+            j += 1
+        out.append(str(ts[i]) if i == j else "%d-%d" % (ts[i], ts[j]))
+        i = j + 1
+    return ",".join(out)
+
+
+def parse_types(spec):
+    out = []
+    for part in spec.split(","):
+        a, _, b = part.partition("-")
+        out += range(int(a), int(b or a) + 1)
+    return out
+
+
+def snd_lines(cfg, hist, api, plen, types, chunk=8192):
+    """one client per line; CloseConnection (14) stops the write loop, so it ends its line"""
+    lines, cur = [], []
+    for t in types:
+        cur.append(t)
+        if t == 14 or len(cur) >= chunk:
+            lines.append("snd %s %s %s %d %s" % (cfg, hist, api, plen, type_spec(cur)))
+            cur = []
+    if cur:
+        lines.append("snd %s %s %s %d %s" % (cfg, hist, api, plen, type_spec(cur)))
+    return lines
+
+
+def gen_send_requests(tier, seed):
+    """(1) every way a caller can put a message type on the connection x all 65536 values of the type
+    (one state completely, a dense sample with all boundaries on the others);
+    (2) connections whose Write fails inside the header: bytes taken 0..10 x error kind x later
+    writes accepted/failing x with and without a client timeout, writeHeader directly and through
+    the write loop"""
+    rnd = random.Random(seed ^ 0x5E2D)
+    thorough = tier == "thorough"
+    reqs = []
+    sample = set(range(0, 1101)) | {65535, 65534, 32768, 0x0C01}
+    for k in range(10, 16):
+        sample |= {(1 << k) - 1, 1 << k, (1 << k) + 1, (1 << k) + 62, (1 << k) + 950, (1 << k) + 1023}
+    for j in range(1, 64):
+        sample |= {1024 * j + rnd.randrange(1024)}
+    sample |= {rnd.randrange(65536) for _ in range(300)}
+    sample = sorted(sample)
+    states = [("v2", NEG11), ("v1", "conn,first"), ("v2t", "conn,first,gsv:1:1"), ("v2", "conn,first,gsv:2:2,xchg,req")]
+    for k, (cfg, hist) in enumerate(states):
+        for api, plen in SEND_APIS:
+            types = list(range(65536)) if k == 0 or thorough else sample
+            reqs += snd_lines(cfg, hist, api, plen, types)
+    # a closed client takes nothing
+    reqs += snd_lines("v2", NEG11 + ",close", "msg", 0, [1, 62, 950, 2000])
+    hdrs = ["1:62:0:7", "2:1023:5:4294967295", "0:1:655360:2147483648", "7:899:1:0", "2:46:4294967285:%d" % rnd.getrandbits(32),
+            "%d:%d:%d:%d" % (rnd.randrange(8), rnd.randrange(900), rnd.getrandbits(16), rnd.getrandbits(32))]
+    msgs = ["0:72:0:0", "0:1:3:0", "0:%d:%d:0" % (rnd.randrange(1, 900), rnd.randrange(0, 9))]
+    fstates = [("v2t", NEG11), ("v2", NEG11), ("v1t", "conn,first"), ("v2t", "conn,first,gsv:1:1,xchg"), ("v2t", "-"), ("v1", "-")]
+    for cfg, hist in fstates:
+        for k in ["-"] + list(range(11)):
+            for kind in ("t", "n", "o", "p"):
+                for then in ("a", "f"):
+                    if k == "-" and (kind, then) != ("t", "a"):
+                        continue
+                    reqs.append("wfl %s %s d %s %s %s %s" % (cfg, hist, k, kind, then, ";".join(hdrs)))
+                    if hist != "-" and (thorough or then == "a" or kind in ("t", "o")):
+                        reqs.append("wfl %s %s q %s %s %s %s" % (cfg, hist, k, kind, then, ";".join(msgs if thorough else msgs[:2])))
+    return reqs
+
+
 def gen_requests(tier, seed):
     rnd = random.Random(seed)
     thorough = tier == "thorough"
@@ -345,6 +424,14 @@ def expand(req):
     if f[0] == "stl":
         return [dict(kind="sth", cfg=f[1], hist=f[2], request=req)] + \
                [dict(kind="stl", cfg=f[1], hist=f[2], bytes=list(bytes.fromhex(h))) for h in f[3].split(";")]
+    if f[0] == "snd":
+        return [dict(kind="snd", cfg=f[1], hist=f[2], api=f[3], plen=int(f[4]), typ=t) for t in parse_types(f[5])]
+    if f[0] == "wfl":
+        out = []
+        for it in f[7].split(";"):
+            v, t, l, i = map(int, it.split(":"))
+            out.append(dict(kind="wfl", cfg=f[1], hist=f[2], via=f[3], k=f[4], errkind=f[5], then=f[6], ver=v, typ=t, len=l, id=i))
+        return out
     if f[0] == "stw":
         return [dict(kind="stw", cfg=f[1], hist=f[2], ver=int(f[3]), typ=t, len=l, id=i)
                 for t in range(int(f[4]), int(f[5]) + 1) for l in map(int, f[6].split(",")) for i in map(int, f[7].split(","))]
@@ -365,6 +452,11 @@ def single_request(case):
         return case["request"]
     if case["kind"] == "stl":
         return "stl %s %s %s" % (case["cfg"], case["hist"], bytes(case["bytes"]).hex())
+    if case["kind"] == "snd":
+        return "snd %s %s %s %d %d" % (case["cfg"], case["hist"], case["api"], case["plen"], case["typ"])
+    if case["kind"] == "wfl":
+        return "wfl %s %s %s %s %s %s %d:%d:%d:%d" % (case["cfg"], case["hist"], case["via"], case["k"], case["errkind"], case["then"],
+                                                      case["ver"], case["typ"], case["len"], case["id"])
     if case["kind"] == "stw":
         return "stw %s %s %d %d %d %d %d" % (case["cfg"], case["hist"], case["ver"], case["typ"], case["typ"], case["len"], case["id"])
     if case["kind"] == "std":
@@ -383,6 +475,10 @@ def judge_case(case, g, o):
     call (the property does not depend on what else was encoded or decoded meanwhile)"""
     if case["kind"] in ("sth", "stv", "stl", "std", "stw"):
         return judge_state(case, g, o)
+    if case["kind"] == "snd":
+        return judge_send(case, g, o)
+    if case["kind"] == "wfl":
+        return judge_write_fault(case, g, o)
     if not case.get("batch"):
         return judge_single(case, g, o)
     f = case["batch"].split(" ", 3)
@@ -486,6 +582,83 @@ def judge_state(case, g, o):
     if v:
         return v
     return ("model-mismatch:client-state", "%s: readHeader(%s) = %s as the bytes say, the model says %s" % (ctx, bytes(bs).hex(), g, o), False)
+
+
+def judge_send(case, g, o):
+    """a message type put on the connection through a constructor / send API: reserved and
+    out-of-range types must be refused; what is accepted must reach the peer as a header that reads
+    back as exactly that type and length"""
+    typ, plen, api = case["typ"], case["plen"], case["api"]
+    ctx = "%s: %s with type %d and %d payload bytes" % (describe_state(case["cfg"], case["hist"]), API_NAME[api], typ, plen)
+    valid = typ <= 1023 and not 900 <= typ <= 999
+    if g == "T":
+        return ("model-mismatch:send-stuck", ctx + ": nothing takes messages any more (model: %s)" % o, False)
+    if g.startswith("R"):
+        if g.startswith("R+"):
+            return ("send-refused-but-written:" + api, ctx + " is refused, yet the peer received " + g[2:], True)
+        if valid and o != "R":
+            return ("send-refuses-valid:" + api, ctx + " is refused although the type is a valid one and the client takes messages (model sends %s)" % o, True)
+        return ("model-mismatch:send", ctx + " is refused; the model says " + o, False)
+    if not re.fullmatch(r"(?:[0-9a-f]{2})+", g):
+        return ("harness-format", "unexpected harness answer %r" % g, False)
+    wire = list(bytes.fromhex(g))
+    back = spec_decode(wire[:10])
+    if not valid:
+        return ("send-accepts-refusable:" + api,
+                "%s is accepted and written as %s, which the peer reads as %s (version.type.length.id); %s types must be refused" % (
+                    ctx, g[:20], back, "reserved (900-999)" if typ <= 1023 else "out-of-range (> 1023)"), True)
+    fields = back.split(".")
+    if len(wire) != 10 + plen or back == "E" or int(fields[1]) != typ or int(fields[2]) != plen or any(wire[10:]):
+        return ("send-wrong:" + api, "%s puts %s on the connection, which reads back as %s + %d payload bytes" % (ctx, g, back, max(0, len(wire) - 10)), True)
+    return ("model-mismatch:send", "%s goes out as %s (type and length as requested); the model says %s" % (ctx, g, o), False)
+
+
+def judge_write_fault(case, g, o):
+    """a connection whose Write takes k bytes of the header and fails: whatever is reported, the peer
+    must have received a prefix of the header's encoding, and all of it (plus the payload) whenever
+    success is reported"""
+    via = "writeHeader" if case["via"] == "d" else "write-loop"
+    fault = "no fault" if case["k"] == "-" else "the first Write takes %s byte(s) and returns %s; later Writes %s" % (
+        case["k"], {"t": "os.ErrDeadlineExceeded", "n": "a net.OpError wrapping a deadline error", "o": "io.ErrClosedPipe",
+                    "p": "a net.OpError 'broken pipe'"}[case["errkind"]], "are accepted" if case["then"] == "a" else "fail too")
+    if case["via"] == "d":
+        what = "writeHeader(Header{version:%d typ:%d payloadLen:%d id:%d})" % (case["ver"], case["typ"], case["len"], case["id"])
+    else:
+        what = "a message of type %d with %d payload bytes sent through SendNoWait and the write loop" % (case["typ"], case["len"])
+    ctx = "%s, connection: %s: %s" % (describe_state(case["cfg"], case["hist"]), fault, what)
+    if g == "R" or ":" not in g:
+        return ("model-mismatch:write-fault", "%s answers %s; the model says %s" % (ctx, g, o), False)
+    rep, _, hx = g.partition(":")
+    got = list(bytes.fromhex(hx))
+    if case["via"] == "d":
+        enc = spec_encode(case["ver"], case["typ"], case["len"], case["id"])
+        if enc in (None, "E"):
+            return ("model-mismatch:write-fault", "%s answers %s; the model says %s (header outside what the encoder accepts)" % (ctx, g, o), False)
+        want = list(bytes.fromhex(enc))
+        if got != want[:len(got)]:
+            return ("write-fault:not-a-prefix:" + via, "%s %s and the peer has received %s, which is not a prefix of the header's encoding %s%s" % (
+                ctx, "reports success" if rep == "ok" else "reports an error", hx or "(nothing)", enc,
+                "; its first 10 bytes read as " + spec_decode(got[:10]) if len(got) >= 10 else ""), True)
+        if rep == "ok" and got != want:
+            return ("write-fault:success-without-header:" + via, "%s reports success but the peer has received only %s of %s" % (ctx, hx or "(nothing)", enc), True)
+        return ("model-mismatch:write-fault", "%s: %s, peer received %s (a prefix of the encoding); the model says %s" % (ctx, rep, hx, o), False)
+    # through the write loop: version bits and id are the client's business (compared with the model);
+    # type, length field and payload are fixed by the request
+    ln = case["len"]
+    bad = len(got) > 10 + ln
+    if len(got) >= 2 and ((got[0] << 8 | got[1]) & 1023 != case["typ"] or got[0] >> 5):
+        bad = True
+    if got[2:6] != be32(10 + ln)[:max(0, min(4, len(got) - 2))]:
+        bad = True
+    if any(got[10:]):
+        bad = True
+    if bad:
+        return ("write-fault:not-a-prefix:" + via, "%s: the peer has received %s, which is not a prefix of one header of type %d with length field %d followed by %d zero bytes%s (%s)" % (
+            ctx, hx or "(nothing)", case["typ"], 10 + ln, ln, "; its first 10 bytes read as " + spec_decode(got[:10]) if len(got) >= 10 else "",
+            "the write loop carried on" if rep == "ok" else "the write loop ended"), True)
+    if rep == "ok" and len(got) != 10 + ln:
+        return ("write-fault:success-without-header:" + via, "%s: the write loop carried on although the peer has received only %s" % (ctx, hx or "(nothing)"), True)
+    return ("model-mismatch:write-fault", "%s: %s, peer received %s (consistent with the request); the model says %s" % (ctx, rep, hx, o), False)
 
 
 def judge_single(case, g, o):
@@ -739,6 +912,11 @@ def run(tier, seed, replay=None):
         "connection states: the peer of the state scenarios is the harness's own in-memory net.Conn (c19Link) speaking the library's dialect of GetSupportedVersionResponse (version << 5); "
         "a state is 'reached' when the read side is parked in Read with everything sent consumed (or Connect has returned); readHeader is called directly only while the read side is parked; "
         "the states covered are the listed histories plus random ones, not all reachable states - that every state gives the same decoding is the theorem C19_read_header_any_state over the model's state record",
+        "send paths: the ways to put a type on the connection are taken to be newMessage (unexported, shared), NewHdrOnlyMsg, NewByteMessage, Client.SendNoWait/SendMessage/SendFor "
+        "(the exported API has no other constructor of Message; Header fields are unexported); payloads are zero bytes; the peer answers SendMessage/SendFor with an ErrorMessage header "
+        "carrying the ID it received; CloseConnection (14) ends a request line because the write loop stops after it by design",
+        "failing connections: faults are injected by the in-memory connection (Write takes k bytes and returns an error); a net.Conn returns n < len(p) only with an error; "
+        "'the write loop carried on' is observed through a marker message queued behind the message under test",
         "the Header version field (uint8) is not refused by the encoder when above 7; the property does not demand it (Example C19_note_version_unchecked)",
     ]
     pr = vlib.proof_part(res, PID)
@@ -765,12 +943,13 @@ def run(tier, seed, replay=None):
     n_states = 0
     if reqs is None:
         st_reqs, n_states = gen_state_requests(tier, seed)
-        reqs = gen_requests(tier, seed) + gen_batch_requests(tier, seed) + gen_frag_requests(tier, seed) + st_reqs
+        reqs = gen_requests(tier, seed) + gen_batch_requests(tier, seed) + gen_frag_requests(tier, seed) + st_reqs \
+            + gen_send_requests(tier, seed)
         # the list is answered in 4 contiguous parts: deal the requests out so that every part gets
         # an even share of every kind
         reqs = [r for k in range(4) for r in reqs[k::4]]
 
-    evals = nontriv = frag_headers = batch_samples = state_samples = 0
+    evals = nontriv = frag_headers = batch_samples = state_samples = send_samples = 0
     dist, samples = {}, []
     if reqs:
         text = "\n".join(reqs) + "\n"
@@ -819,6 +998,15 @@ def run(tier, seed, replay=None):
                 dist[kind] = dist.get(kind, 0) + ntok * npat
                 nontriv += (ntok - rej) * npat
                 frag_headers += ntok
+            elif kind in ("snd", "wfl"):
+                toks = g.split(" ")
+                evals += len(toks)
+                dist[kind] = dist.get(kind, 0) + len(toks)
+                # non-trivial: something reached the peer
+                nontriv += sum(1 for t in toks if t not in ("R", "T", "E:", "ok:"))
+                if send_samples < 4 and ((kind == "snd" and "899-" in req) or (kind == "wfl" and " 4 t a " in req)) and send_samples % 2 == (kind == "wfl"):
+                    send_samples += 1
+                    samples.append(dict(request=req[:300], go=g[:300], model=o[:300]))
             elif kind in ("stl", "std", "stw"):
                 # one evaluation per header handed to a client in a connection state
                 toks = g.split(" ")[0 if kind == "stw" else 1:]
@@ -900,7 +1088,12 @@ def run(tier, seed, replay=None):
              "CloseConnection sent, Close called, read side ended; with/without timeout; random histories with messages of foreign version bits "
              "already read): stl = messages with all 8 version-bit values x types x payload sizes x ids handed to its read side (observed: header "
              "given to the logger and to the handler, version held), std = readHeader called directly on that client while its read side is parked "
-             "(all 2^16 first-two-bytes values on the main states, a stride on the others), stw = writeHeader called directly (8 versions x 1024 types); one evaluation per header; table cases = the 1024 type codes. "
+             "(all 2^16 first-two-bytes values on the main states, a stride on the others), stw = writeHeader called directly (8 versions x 1024 types); one evaluation per header; "
+             "send paths (snd) = newMessage / NewHdrOnlyMsg / NewByteMessage (with and without payload) handed to SendNoWait, SendMessage and SendFor (empty and non-empty data) on a "
+             "connected client, for all 65536 values of the message type on the client that negotiated 1.1 and a dense sample with all boundaries on three other states: refused, or "
+             "the bytes the peer received; failing connections (wfl) = the connection's Write takes 0..10 bytes of the header and fails (deadline error plain / as net.OpError, "
+             "closed pipe, broken pipe; later writes accepted or failing; clients with and without timeout; several states), writeHeader directly and a message through the write loop "
+             "followed by a marker message: what is reported and what the peer received; table cases = the 1024 type codes. "
              "All cases of a run are distinct by construction (lists de-duplicated). Non-trivial: a header case that the implementation "
              "accepts (answer is not E), a table code that can be instantiated; counted from the Go answers." % (DEC_LENS, ENC_LENS, n_states),
         samples=samples, input_distribution=dist, traces_validated_against_impl=evals,
